@@ -5,11 +5,12 @@ from __future__ import annotations
 import numpy as np
 
 from gridrv import instrument
+from gridrv.monitors import roundtrip
 from gridrv.oracles import c14ref, sph
 
 PROP = "C14"
 TITLE = "Multipole moments equal direct quadrature of their defining integrands"
-REQUIRED_HOOKS = ["Grid.moments", "utils.generate_orders_horton_order", "utils.dipole_moment_of_molecule"]
+REQUIRED_HOOKS = ["Grid.moments", "utils.generate_orders_horton_order", "utils.dipole_moment_of_molecule"] + [f"clone:{k}" for k in roundtrip.KINDS]
 REQUIRED_FAMILIES = ["random-grid", "real-grid", "dipole", "generator", "hostile", "centre-list"]
 BUDGET = {"quick": 300, "thorough": 2400}
 TOL = 1e-10
@@ -36,6 +37,9 @@ RULE = (
     "displaced positions or another molecule than the coords/charges arguments (the helper must use its arguments). centre-list = one "
     "call whose centre list mixes distant centres (1e3..1e11 x extent) before/between/after ordinary ones, all types and dimensions: "
     "every column == the same call with that centre alone == the reversed list (1e-12 of the row scale), caller arrays unchanged. "
+    "clones: in a rotating subset of the random-grid / real-grid cases the grid goes through copy.copy / copy.deepcopy / pickle "
+    "(protocol default and 2): public state of the clone == original, original unchanged, and the same moments call on the clone is "
+    "decided by the post-condition and must equal the original's result (1e-12 of the row scale; bit-identity is counted - NumPy's summation order depends on buffer alignment). "
     "A case is non-trivial when at least one monitored call returned and was compared."
 )
 ASSUMPTIONS = [
@@ -430,6 +434,34 @@ def _call_moments(ctx, g, L, c, f, t, sel):
     return None
 
 
+def _clone_moments(ctx, g, res0, L, c, f, t, sel, kind):
+    """The grid goes through copy.copy / copy.deepcopy / pickle: the clone is still 'the grid with these points and weights' -
+    same public state, and the same moments call on it (decided by the attached post-condition like any other call) must return
+    bit-for-bit what the original returned."""
+    clone = roundtrip.check_clone(ctx, f"{type(g).__name__}", g, kind)
+    if clone is None or res0 is None:
+        return
+    res1 = _call_moments(ctx, clone, L, c, f, t, sel)
+    if res1 is None:
+        return
+    v0 = np.asarray(res0[0] if isinstance(res0, tuple) else res0)
+    v1 = np.asarray(res1[0] if isinstance(res1, tuple) else res1)
+    # identical public arrays give identical sums up to the summation order NumPy picks for the buffers' alignment (an
+    # unpickled array may be aligned differently): compared at 1e-12 of the row scale sum|w f B|, bit-identity is counted
+    if v0.shape != v1.shape or v0.dtype != v1.dtype:
+        ctx.check("clone-moments-equal-original", f"Grid.moments[{t},{type(g).__name__}]:{kind}", False, sig="shape-or-dtype-differs")
+        return
+    if v0.tobytes() == v1.tobytes():
+        ctx.count("moments:on-clone:bit-identical")
+    pts = np.asarray(g.points)
+    fr = np.abs(f) if np.iscomplexobj(f) else f
+    _, A, E, _ = c14ref.ref_moments(t, int(L), pts, np.asarray(g.weights), fr, c)
+    with np.errstate(all="ignore"):
+        d = float(np.max(np.abs(v0 - v1) / (A + FLOOR * E + UNDERFLOW))) if v0.size else 0.0
+    ctx.check("clone-moments-equal-original", f"Grid.moments[{t},{type(g).__name__}]:{kind}", d, 1e-12, sig="moments-on-clone-differ", detail={"max_abs_diff": float(np.max(np.abs(v0 - v1))) if v0.size else None})
+    ctx.count("moments:on-clone:" + kind)
+
+
 def _gauss_density(rng, pts, centres, noise=0.2):
     rho = np.zeros(len(pts))
     for c in centres:
@@ -539,7 +571,9 @@ def run_case(ctx, family, params):
             ctx.case_note("complex_f", True)
         c = _centres(rng, pts, m, scale)
         sel = L + m + k + dim
-        _call_moments(ctx, g, _order_arg(L, sel), c, f, t, sel // 3)
+        res0 = _call_moments(ctx, g, _order_arg(L, sel), c, f, t, sel // 3)
+        if (L + 2 * m + k + dim) % 3 == 1:
+            _clone_moments(ctx, g, res0, _order_arg(L, sel), c, f, t, sel // 3, roundtrip.KINDS[(L + m + k) % 4])
         ctx.case_note("N", n)
         if (L + m + 3 * k) % 3 == 0:
             # history on ONE grid object: same call again after the points (and weights) were reassigned through the public
@@ -570,7 +604,9 @@ def run_case(ctx, family, params):
         if params["grid"] in ("atomgrid", "atomgrid-offcentre") and rng.random() < 0.5:
             c[0] = g.center  # expansion about the grid's own centre
         sel = L + k + len(params["grid"])
-        _call_moments(ctx, g, _order_arg(L, sel), c, f, t, sel // 3)
+        res0 = _call_moments(ctx, g, _order_arg(L, sel), c, f, t, sel // 3)
+        if (L + k + len(params["grid"])) % 2 == 0:
+            _clone_moments(ctx, g, res0, _order_arg(L, sel), c, f, t, sel // 3, roundtrip.KINDS[(L // 2 + k + REAL_GRIDS.index(params["grid"])) % 4])
         ctx.case_note("N", int(g.size))
         ctx.case_note("class", type(g).__name__)
     elif family == "dipole":
